@@ -2,6 +2,7 @@
 from __future__ import annotations
 
 import base64
+import binascii
 import quopri
 from abc import abstractmethod, ABCMeta
 from email.headerregistry import ContentTransferEncodingHeader
@@ -96,5 +97,8 @@ class _Base64Decoder(MessageDecoder):
 
     def decode(self, body: MessageBody) -> Writeable:
         raw = bytes(body)
-        ret = base64.b64decode(raw)
+        try:
+            ret = base64.b64decode(raw)
+        except binascii.Error:
+            return body
         return Writeable.wrap(ret)
